@@ -79,7 +79,7 @@ CHECKS = {
          "DESIGN.md §6 C14", "seqx"),
  "C15": ("model_checking",
          "complete cartesian enumeration of tuning values through the real make_tune_ok against an independent reference, plus execution of negotiated sessions on the real threads under virtual time checking that the connection behaves by the negotiated values",
-         "seqx: joint boundary product of all six values (592,900; thorough adds the complete u16 x u16 products for channel_max and heartbeat, 8.6e9 evaluations) against a min-with-0-as-unlimited reference incl. the FrameMaxTooSmall floor. simx tuned: 9 (thorough 13) (client options, server Tune) pairs through a live connection: TuneOk on the wire equals the negotiated triple (or FrameMaxTooSmall and no TuneOk), open_channel(Some(channel_max)) works and Some(channel_max+1) is refused, a body of three payload limits is framed within frame_max, and over three negotiated heartbeat intervals of idleness the client writes at least every interval (nothing when the interval is 0).",
+         "seqx: joint boundary product of all six values (592,900; thorough adds the complete u16 x u16 products for channel_max and heartbeat, 8.6e9 evaluations) against a min-with-0-as-unlimited reference incl. the FrameMaxTooSmall floor. simx tuned: 9 (thorough 13) (client options, server Tune) pairs through a live connection: TuneOk on the wire equals the negotiated triple (or FrameMaxTooSmall and no TuneOk), open_channel(Some(channel_max)) works and Some(channel_max+1) is refused, a body of three payload limits is framed within frame_max, and over three negotiated heartbeat intervals of idleness the client writes at least every interval (nothing when the interval is 0). simx hb (C17's scenario, run here for the clause 'heartbeat timing follows the announced interval'): every timing pattern of that scenario incl. a client that asks for h against a server proposing 3h, a peer that stops reading across a tx expiry and an I/O thread that is not scheduled across the hand-over from the handshake.",
          "The 'then obeyed' half is checked on 9-13 value pairs, not on the whole product; heartbeat timing uses the virtual clock and timer stand-in.",
          "DESIGN.md §6 C15", "seqx+simx"),
  "C16": ("model_checking",
@@ -89,7 +89,7 @@ CHECKS = {
          "DESIGN.md §6 C16", "seqx+simx"),
  "C17": ("model_checking",
          "complete enumeration of timing patterns on a virtual-time grid over the real heartbeat code in a live connection (controlled scheduler, virtual clock, timer stand-in)",
-         "Negotiated h in {1,2} s (thorough +60 s) and h=0; virtual time to 6h; every pattern of up to 2 (thorough 3) server transmissions (whole heartbeat or a single byte) on a grid of h/2 plus 3 ms, 2h-6 ms, 2h-5 ms, 2h+1 ms, a server that keeps talking, client publishes at chosen times: 1034 (thorough more) timing patterns, each executed on the real I/O thread; time advances only at quiescence. Oracle (constraints): client writes at least every h while alive; MissedServerHeartbeats iff inbound silence reaches 2h, within [2h-5 ms, 2h+10 ms]; any inbound byte counts; with h=0 no heartbeat frame and silence is never fatal.",
+         "Negotiated h in {1,2} s (thorough +60 s) and h=0; virtual time to 6h; every pattern of up to 2 (thorough 3) server transmissions (whole heartbeat or a single byte) on a grid of h/2 plus 3 ms, 2h-6 ms, 2h-5 ms, 2h+1 ms, a server that keeps talking, client publishes at chosen times, a peer that stops reading for 0.3h across an expiry of the tx timer while a publish waits in the output buffer, an I/O thread that is not scheduled for 0.2h while OpenOk arrives and the tx timer expires (both orders): 1064 (thorough more) timing patterns, each executed on the real I/O thread; time advances only at quiescence. Oracle (constraints): client writes at least every h while alive; MissedServerHeartbeats iff inbound silence reaches 2h, within [2h-5 ms, 2h+10 ms]; any inbound byte counts; with h=0 no heartbeat frame and silence is never fatal.",
          "The mio-extras timer wheel (100 ms ticks, wake-up thread) is replaced by an exact virtual-time stand-in and Instant by a virtual clock (DESIGN.md 3.3); real-time jitter is out of scope.",
          "DESIGN.md §6 C17", "simx"),
  "C18": ("model_checking",
